@@ -250,11 +250,18 @@ def run_check(prop, tier, seed):
             if f["_line"] not in printed:
                 print("KNOWN-FINDING: property=%s %s" % (prop, f["_line"].split(" ", 2)[-1]))
                 printed.add(f["_line"])
+        found = None
+        if viol_rel or undecided:
+            # second engine: executable contracts on the REAL crate (native random search, then Kani)
+            import cex
+            try:
+                found = cex.search(prop, None, viol_rel, scratch)
+            except Exception as e:   # the counterexample engine must never mask the verdict
+                log("counterexample search failed: %s" % e)
+        rdir = os.path.join(ROOT, "evidence", "replay")
         if viol_rel:
             status = 1
-            rdir = os.path.join(ROOT, "evidence", "replay")
             os.makedirs(rdir, exist_ok=True)
-            import cex
             by_unit = {}
             for v in viol_rel:
                 by_unit.setdefault(v["unit"], []).append(v)
@@ -263,24 +270,36 @@ def run_check(prop, tier, seed):
                 replay = {"property": prop, "unit": uname, "source": " | ".join(all_units[uname].source),
                           "failed_obligations": [{"obligation": "%s@%s:%s" % (uname, v["job"], v["kind"]), "where": v["where"],
                                                   "verifier_message": v["message"], "verifier_output": v["rendered"]} for v in vs],
-                          "counterexample": None}
-                found = None
-                try:
-                    found = cex.search(prop, uname, vs, scratch)
-                except Exception as e:   # the counterexample engine must never mask the verdict
-                    log("counterexample search failed: %s" % e)
-                if found:
-                    replay["counterexample"] = found
+                          "counterexample": found}
                 with open(rpath, "w") as f:
                     json.dump(replay, f, indent=1)
                 suffix = "" if found else " no-failing-input-found"
                 print("VIOLATION property=%s replay=%s%s" % (prop, rpath, suffix))
                 for v in vs[:4]:
                     log("  failed obligation %s@%s:%s at %s: %s" % (uname, v["job"], v["kind"], v["where"], v["message"].split("\n")[0]))
+        elif undecided and found:
+            # the verifier could not decide (lost anchor, unsupported construct, resource limit) but the
+            # executable form of the contract fails on the real code for a concrete input
+            status = 1
+            os.makedirs(rdir, exist_ok=True)
+            rpath = os.path.join(rdir, "%s-%s.json" % (prop, found["harness"]))
+            with open(rpath, "w") as f:
+                json.dump({"property": prop, "unit": None, "failed_obligations": [
+                    {"obligation": "kani/native executable contract %s" % found["harness"], "where": str(found.get("failed_assertion")),
+                     "verifier_message": "; ".join(undecided[:3]), "verifier_output": ""}], "counterexample": found}, f, indent=1)
+            print("VIOLATION property=%s replay=%s" % (prop, rpath))
         elif undecided:
             status = 2
+        # one line per distinct reason (the job label prefix is dropped for grouping), at most 15 lines
+        seen = {}
         for u in undecided:
-            print("UNDECIDED property=%s reason=%s" % (prop, u))
+            key = u.split(": ", 1)[-1]
+            seen.setdefault(key, []).append(u)
+        for n, (key, us) in enumerate(seen.items()):
+            if n >= 15:
+                print("UNDECIDED property=%s reason=... %d more distinct reasons" % (prop, len(seen) - 15))
+                break
+            print("UNDECIDED property=%s reason=%s%s" % (prop, us[0], (" (+%d more instances)" % (len(us) - 1)) if len(us) > 1 else ""))
 
         # ---- evidence
         import trustscan
